@@ -346,6 +346,10 @@ func getKDFKey(cryptoJSON cryptoJSON, auth string) ([]byte, error) {
 		if err != nil {
 			return nil, err
 		}
+		if r <= 0 || p <= 0 {
+			// scrypt.Key divides by r and p while validating its parameters
+			return nil, fmt.Errorf("invalid scrypt parameters: r=%d p=%d", r, p)
+		}
 		return scrypt.Key(authArray, salt, n, r, p, dkLen)
 
 	} else if cryptoJSON.KDF == "pbkdf2" {
